@@ -1,6 +1,6 @@
 import ObiVerif.Model.WriteErr
 import ObiVerif.Driver.Util
-/-! line protocol for C18: `<writer> gz=<0|1> k=<limit> cf=<0|1> zlen=<n> <order>:<nseq>:<hex text> …` -/
+/-! line protocol for C18: `<writer> gz=<0|1> k=<limit> cf=<0|1> zlen=<n> own=<0|1> <order>:<nseq>:<hex text> …` -/
 namespace ObiVerif.Driver.C18
 open ObiVerif.WriteErr ObiVerif.Driver
 
@@ -23,9 +23,12 @@ def showOut (r : Outcome × Bytes) : String :=
 def run (line : String) : String :=
   match words line with
   | "cmd" :: _ => "exit-nonzero"   -- a command whose output cannot be written must fail
-  | w :: gz :: k :: cf :: zl :: rest =>
-    match kv "gz" gz, kv "k" k, kv "cf" cf, kv "zlen" zl, rest.mapM parseChunk with
-    | some gz, some k, some cf, some zlen, some arr =>
+  | w :: gz :: k :: cf :: zl :: own :: rest =>
+    match kv "gz" gz, kv "k" k, kv "cf" cf, kv "zlen" zl, kv "own" own, rest.mapM parseChunk with
+    | some gz, some k, some cf0, some zlen, some own, some arr =>
+      -- a writer that does not own its output (OptionDontCloseFile: stdout) never calls Close on it,
+      -- so a failing Close of the sink cannot be met; the final flush still is
+      let cf := if own = 0 then 0 else cf0
       if gz = 1 then
         -- compressed output: the codec is not modelled; the result fits the output iff the limit
         -- is at least the compressed size measured on a non failing run
@@ -33,7 +36,7 @@ def run (line : String) : String :=
       else if w = "fasta" || w = "fastq" || w = "csv" then showOut (writeRaw 4096 k (cf = 1) arr)
       else if w = "json" then showOut (writeJson 4096 k (cf = 1) arr)
       else "bad-op"
-    | _, _, _, _, _ => "bad-op"
+    | _, _, _, _, _, _ => "bad-op"
   | _ => "bad-op"
 
 end ObiVerif.Driver.C18
